@@ -52,3 +52,98 @@ package vendingpb
 //@   ensures [size] err == nil ==> 1 <= pageSize && pageSize <= 1000 && (old(request.PageSize) == 0 ==> pageSize == 50) && upperBound - nextIndex <= pageSize && (upperBound == len(all) || upperBound - nextIndex == pageSize)
 //@   ensures [last-page] err == nil && nextIndex + pageSize > len(all) ==> resp.NextPageToken == ""
 //@   replay VendingListInventory(request.PageSize)
+//@
+//@ property C20
+//@ // ---- dispensing: used += q and remaining -= q (floored at zero), each in its own unit; a quantity that cannot be
+//@ // converted to the unit of used/remaining is an error that is reported ----
+//@ pure func unitsConvertible(a, b) = a == b || (has(unitpb.siUnits, a) && has(unitpb.siUnits, b) && unitpb.siUnits[a].category == unitpb.siUnits[b].category)
+//@ // the unit table as initialised at unitpb/convert.go:123-129 (never written afterwards); ground facts, so that counter-models
+//@ // talk about the real table.  Units are the enum values of traits.Consumable.Unit (0 UNSPECIFIED, 1 NO_UNIT, 2 METER, 3 LITER,
+//@ // 4 CUBIC_METER, 5 CUP, 6 KILOGRAM); a well-formed request uses defined values.
+//@ pure func unitTableIs() = !has(unitpb.siUnits, 0) && !has(unitpb.siUnits, 1) && has(unitpb.siUnits, 2) && has(unitpb.siUnits, 3) && has(unitpb.siUnits, 4) && has(unitpb.siUnits, 5) && has(unitpb.siUnits, 6) &&
+//@ |   unitpb.siUnits[2].category == unitpb.length && unitpb.siUnits[3].category == unitpb.volume && unitpb.siUnits[4].category == unitpb.volume && unitpb.siUnits[5].category == unitpb.volume && unitpb.siUnits[6].category == unitpb.weight
+//@ pure func unitDefined(u) = 0 <= u && u <= 6
+//@ pure func qtyOK(q) = q != nil ==> unitDefined(q.Unit)
+//@ pure func floor0(x) = x < 0 ? 0 : x
+//@
+//@ func updateStock(quantity, src, dst) (err)
+//@   requires quantity != nil && src != nil && dst != nil && src != dst
+//@   requires unitTableIs() && qtyOK(quantity) && qtyOK(src.Used) && qtyOK(src.Remaining)
+//@   ensures [error] (old(src.Used) != nil && !unitsConvertible(quantity.Unit, old(src.Used.Unit))) || (old(src.Remaining) != nil && !unitsConvertible(quantity.Unit, old(src.Remaining.Unit))) ==> err != nil
+//@   ensures [ok] (old(src.Used) == nil || unitsConvertible(quantity.Unit, old(src.Used.Unit))) && (old(src.Remaining) == nil || unitsConvertible(quantity.Unit, old(src.Remaining.Unit))) ==> err == nil
+//@   ensures [used] err == nil && old(src.Used) != nil ==> dst.Used != nil && dst.Used.Unit == old(src.Used.Unit) &&
+//@   |   dst.Used.Amount == old(src.Used.Amount) + conv32(quantity.Amount, quantity.Unit, old(src.Used.Unit))
+//@   ensures [remaining-unit] err == nil && old(src.Remaining) != nil ==> dst.Remaining != nil && dst.Remaining.Unit == old(src.Remaining.Unit)
+//@   ensures [remaining] err == nil && old(src.Remaining) != nil ==> dst.Remaining != nil &&
+//@   |   dst.Remaining.Amount == floor0(old(src.Remaining.Amount) - conv32(quantity.Amount, quantity.Unit, old(src.Remaining.Unit)))
+//@   ensures [same-unit] err == nil && old(src.Used) != nil && quantity.Unit == old(src.Used.Unit) ==> dst.Used.Amount == old(src.Used.Amount) + quantity.Amount
+//@   ensures [absent] (old(src.Used) == nil ==> dst.Used == old(dst.Used)) && (old(src.Remaining) == nil ==> dst.Remaining == old(dst.Remaining))
+//@   ensures [src-kept] src.Used == old(src.Used) && src.Remaining == old(src.Remaining)
+//@   replay VendingUpdateStock(old(src.Used) != nil, old(src.Used.Unit), old(src.Remaining) != nil, old(src.Remaining.Unit), quantity.Unit)
+//@   modifies traits.Consumable_Stock.Used, traits.Consumable_Stock.Remaining     // (of dst only: see [src-kept])
+//@
+//@ pure func stockOf(m) = cast(m, *traits.Consumable_Stock)
+//@ pure func isStock(m) = istype(m, *traits.Consumable_Stock) && cast(m, *traits.Consumable_Stock) != nil
+//@ pure func canDispense(q, s) = (s.Used == nil || unitsConvertible(q.Unit, s.Used.Unit)) && (s.Remaining == nil || unitsConvertible(q.Unit, s.Remaining.Unit))
+//@
+//@ // the interceptor of DispenseInstantly: old is the stored stock, new the request that replaces it
+//@ func (*Model).DispenseInstantly$1(old, new)
+//@   requires isStock(old) && isStock(new) && stockOf(old) != stockOf(new) && quantity != nil
+//@   requires unitTableIs() && qtyOK(quantity) && qtyOK(stockOf(old).Used) && qtyOK(stockOf(old).Remaining)
+//@   ensures [reported] !old(canDispense(quantity, stockOf(old))) ==> maskedErr != nil
+//@   ensures [ok] old(canDispense(quantity, stockOf(old))) ==> maskedErr == old(maskedErr) && stockOf(new).LastDispensed == quantity && !stockOf(new).Dispensing
+//@   ensures [used] old(canDispense(quantity, stockOf(old))) && old(stockOf(old).Used) != nil ==> stockOf(new).Used != nil && stockOf(new).Used.Unit == old(stockOf(old).Used.Unit) &&
+//@   |   stockOf(new).Used.Amount == old(stockOf(old).Used.Amount) + conv32(quantity.Amount, quantity.Unit, old(stockOf(old).Used.Unit))
+//@   ensures [remaining] old(canDispense(quantity, stockOf(old))) && old(stockOf(old).Remaining) != nil ==> stockOf(new).Remaining != nil && stockOf(new).Remaining.Unit == old(stockOf(old).Remaining.Unit) &&
+//@   |   stockOf(new).Remaining.Amount == floor0(old(stockOf(old).Remaining.Amount) - conv32(quantity.Amount, quantity.Unit, old(stockOf(old).Remaining.Unit)))
+//@   ensures [stored-kept] old(canDispense(quantity, stockOf(old))) ==> stockOf(old).Used == old(stockOf(old).Used) && stockOf(old).Remaining == old(stockOf(old).Remaining)
+//@
+//@ // Collection.Update behind UpdateStock is not under contract here (see C01/C08); it may run the interceptor, which
+//@ // writes maskedErr.  Nothing is assumed about its results.
+//@ func (*Model).UpdateStock(stock, opts) (res, err)
+//@   trusted
+//@   modifies all
+//@
+//@ func (*Model).DispenseInstantly(consumable, quantity) (stock, err)
+//@   requires recv != nil && quantity != nil
+//@   // a conversion error recorded by the interceptor is reported to the caller, not swallowed
+//@   ensures [reported] maskedErr != nil ==> err != nil && stock == nil
+//@   ensures [error-nil] err != nil ==> stock == nil
+//@   replay VendingDispenseError()
+//@
+//@ // ---- option plumbing: options given for one resource of the model reach that resource and no other ----
+//@ pure func keptPrefix(now, before, beforeLen) = forall i int :: 0 <= i && i < beforeLen ==> now[i] == before[i]
+//@ pure func suffixIs(now, beforeLen, opts) = forall p int :: beforeLen <= p && p < beforeLen + len(opts) ==> now[p] == old(opts[p-beforeLen])
+//@
+//@ func WithInventoryOption$1(args)
+//@   requires args != nil
+//@   ensures [inventory-len] len(args.inventoryOptions) == old(len(args.inventoryOptions)) + len(opts)
+//@   ensures [inventory-kept] keptPrefix(args.inventoryOptions, old(args.inventoryOptions), old(len(args.inventoryOptions)))
+//@   ensures [inventory-new] suffixIs(args.inventoryOptions, old(len(args.inventoryOptions)), opts)
+//@   ensures [consumables-untouched] args.consumableOptions == old(args.consumableOptions)
+//@
+//@ func WithConsumablesOption$1(args)
+//@   requires args != nil
+//@   ensures [consumables-len] len(args.consumableOptions) == old(len(args.consumableOptions)) + len(opts)
+//@   ensures [consumables-kept] keptPrefix(args.consumableOptions, old(args.consumableOptions), old(len(args.consumableOptions)))
+//@   ensures [consumables-new] suffixIs(args.consumableOptions, old(len(args.consumableOptions)), opts)
+//@   ensures [inventory-untouched] args.inventoryOptions == old(args.inventoryOptions)
+//@   replay VendingConsumablesOption()
+//@
+//@ // initial records: a well-formed list (every record named) is accepted without panic
+//@ func WithInitialStock(inventory) (opt)
+//@   requires forall i int :: 0 <= i && i < len(inventory) ==> inventory[i] != nil && inventory[i].Consumable != ""
+//@   ensures [option] opt != nil
+//@   loop 0 (k):
+//@     invariant 0 <= k && k <= len(inventory) && len(opts) == len(inventory)
+//@     decreases len(inventory) - k
+//@
+//@ func WithInitialConsumable(consumables) (opt)
+//@   requires forall i int :: 0 <= i && i < len(consumables) ==> consumables[i] != nil && consumables[i].Name != ""
+//@   ensures [option] opt != nil
+//@   loop 0 (k):
+//@     invariant 0 <= k && k <= len(consumables) && len(opts) == len(consumables)
+//@     decreases len(consumables) - k
+//@
+//@ // (*modelArgs).apply is not under contract: its rule distinguishes options by the non-pointer dynamic type modelOption, and
+//@ // istype(x, modelOption) is not accepted by the spec language (verifier panic "main.Expr is *main.EIdent, not *main.EType").
